@@ -70,6 +70,10 @@ type Sim struct {
 	Intercept func(r *Request) (*http.Response, error, bool) // fault injection: handled=true short-cuts
 	RespHeader func(r *Request) http.Header
 	Gate      func(r *Request) // blocks until the harness releases the response
+	PostProcess func(r *Request, body []byte) (int, []byte) // rewrite a computed answer (wrong entity count ...)
+	// Provenance, when non-nil, receives (request, object identity, field) for
+	// every field a subgraph resolves: who supplied which datum (C07).
+	Provenance func(r *Request, obj any, field string)
 }
 
 func NewSim(l *Layout, u *Universe) (*Sim, error) {
@@ -209,7 +213,11 @@ func (s *Sim) RoundTrip(hr *http.Request) (*http.Response, error) {
 	if s.RespHeader != nil {
 		h = s.RespHeader(req)
 	}
-	return jsonResp(200, out, h), nil
+	code := 200
+	if s.PostProcess != nil {
+		code, out = s.PostProcess(req, out)
+	}
+	return jsonResp(code, out, h), nil
 }
 
 // execute validates, checks ownership and runs the request with R1 on the
@@ -228,7 +236,13 @@ func (s *Sim) execute(rt *sgRuntime, req *Request, opName string) []byte {
 		req.OpType = string(op.Operation)
 		s.ownershipWalk(rt, req, op.SelectionSet, nil, doc, map[string]bool{})
 	}
-	res := refexec.Execute(rt.schema, doc, &sgResolver{s: s, rt: rt, req: req}, refexec.Options{OperationName: opName, Variables: req.Variables, Root: RootObj("")})
+	opts := refexec.Options{OperationName: opName, Variables: req.Variables, Root: RootObj("")}
+	if s.Provenance != nil {
+		opts.OnField = func(path []any, parentType string, parent Obj, f *gast.Field) {
+			s.Provenance(req, Identity(parentType, parent), f.Name)
+		}
+	}
+	res := refexec.Execute(rt.schema, doc, &sgResolver{s: s, rt: rt, req: req}, opts)
 	return res.JSON()
 }
 
@@ -398,6 +412,7 @@ func (r *sgResolver) entities(args map[string]any) any {
 			cp[k] = v
 		}
 		cp["__rep"] = rep
+		cp["__orig"] = found
 		out[i] = cp
 	}
 	return out
@@ -417,4 +432,16 @@ func (s *Sim) SortedProblems() []string {
 	}
 	sort.Strings(out)
 	return out
+}
+
+// Identity names a datum's owner object: the universe object itself (pointer
+// identity; an _entities copy points back to its original) or the root type.
+func Identity(parentType string, parent Obj) any {
+	if parent["__root"] == true {
+		return "ROOT"
+	}
+	if o, ok := parent["__orig"].(Obj); ok {
+		return fmt.Sprintf("%p", o)
+	}
+	return fmt.Sprintf("%p", parent)
 }
